@@ -209,8 +209,20 @@ static int cb_close(void *priv)
 
 static volatile uint64_t sink;
 
+#if defined(__has_feature)
+#if __has_feature(memory_sanitizer)
+#include <sanitizer/msan_interface.h>
+#define MSAN_CHECK(p, n) __msan_check_mem_is_initialized((p), (n))
+#endif
+#endif
+#ifndef MSAN_CHECK
+#define MSAN_CHECK(p, n) do { } while (0)
+#endif
+
+/* everything a client can read must be addressable (ASan) and initialised (MSan) */
 static void touch(const void *p, size_t n)
 {
+	MSAN_CHECK(p, n);
 	sink = fnv1a(sink, p, n);
 }
 
